@@ -68,6 +68,18 @@ PROPS = {
                 'non-trivial = distinct request lines',
         'assumptions': ASSUME_COMMON,
     },
+    'C11': {
+        'lean': ['Purr.Props.C11'],
+        'suites': [
+            {'name': 'graph', 'fields': ['V', 'EV', 'W'], 'nontrivial': lambda rq, resp: not resp.startswith('ok # EV - ')},
+        ],
+        'rule': 'all adjacency lists of 1-2 atoms (thorough 3) whose bond lists are any sequence of <= 2 half-bonds over the given kinds and '
+                'targets 0..n (garbage included), all symmetric simple graphs on <= 4 atoms (thorough 5) x bond kinds x every order of every bond '
+                'list, a stereo/directional family, random well-formed graphs up to 300 atoms with a third of them hit by one drop / retarget / '
+                'duplicate / re-kind / add mutation of a half-bond (on tree edges, ring-closing edges and between components) and some by three. '
+                'distinct = distinct request lines',
+        'assumptions': ASSUME_COMMON,
+    },
     'C13': {
         'lean': ['Purr.Props.C13'],
         'suites': [
